@@ -169,6 +169,7 @@ pub fn lists() {
             Err(_) => {
                 // a debug assertion of lists.rs fired
                 let _ = writeln!(out, "panic");
+                let _ = out.flush();
                 continue;
             }
         };
@@ -196,5 +197,7 @@ pub fn lists() {
             states.push("bad-op".to_string());
         }
         let _ = writeln!(out, "{}", states.join(" | "));
+        // a later case may abort the process: nothing already answered may be lost
+        let _ = out.flush();
     }
 }
